@@ -108,7 +108,7 @@ def run_session(tag, cfg, seed, ops_filter=None, redeliver=True, setup_only=Fals
     if setup_only:
         s.ok = True
         return s
-    ops = ["ping"] * 6 + ["up"] * 3 + ["down"] * 5 + ["burst", "idle", "id0", "aux", "hs", "badip", "downsoon", "upsmall", "rawop", "refrag", "refrag", "dupsoon", "dupsoon", "c2c", "c2c"]
+    ops = ["ping"] * 6 + ["up"] * 3 + ["down"] * 5 + ["burst", "idle", "id0", "aux", "hs", "badip", "downsoon", "upsmall", "rawop", "refrag", "refrag", "dupsoon", "dupsoon", "c2c", "c2c", "reborn"]
     if cfg.get("sendfaults"):
         ops += ["sendfault"] * 3
     if redeliver:
@@ -128,6 +128,14 @@ def run_session(tag, cfg, seed, ops_filter=None, redeliver=True, setup_only=Fals
             mc.pump(2 * US, 150000)
     s.ok = True
     return s
+
+
+def _first_char(d):
+    try:
+        labels, _ = proto.read_name(d, 12)
+        return labels[0][:1] if labels and labels[0] else b"?"
+    except proto.ParseError:
+        return b"?"
 
 
 def mk_frame(s, mc, direction, rng, size=None):
@@ -236,6 +244,56 @@ def do_op(s, mc, op, rng):
             mc.ask(proto.msg_version(mc.domain, mc.new_cmc(), rng.choice([0x00000501, 0x00000502 ^ 0x100])), timeout_us=300000)
         else:
             mc.ask(proto.msg_setfrag(mc.domain, mc.userid, rng.choice([0, 1]), mc.new_cmc()), timeout_us=300000)
+    elif op == "reborn":
+        # Every session falls silent for more than a minute; then the clients come back, are given (recycled) slots and
+        # negotiate again - with another fragment size - and some datagrams of the *previous* sessions arrive once more
+        # (a resolver re-sending old queries).  Whatever the server kept from the earlier occupants of the slots (cached
+        # answers, queued packets, fingerprints) must not reach the new sessions.
+        old = []
+        for m2 in s.mcs:
+            # the last thing each old session does is fetch the beginning of a download (so that the answers the server
+            # remembers carry data, cut to the old fragment size)
+            for _ in range(rng.randint(1, 2)):
+                f = proto.make_frame(s.server_tun_ip, m2.tun_ip, (s.ident << 8) | (len(s.offered_down) & 0xFF), rng.choice([600, 1000, 1134]), "random", rng)
+                s.ident += 1
+                s.offered_down.append(f)
+                k.offer_tun("srv", f, None)
+            k.run(k.now + 3000)
+            for _ in range(rng.randint(2, 5)):
+                m2.ping(wait_us=20000)
+            m2.drain()
+            old += [(m2, d) for d in m2.dgrams[-8:] if _first_char(d) in b"pP0123456789abcdefABCDEF"]
+        k.run(k.now + rng.choice([61, 62, 75]) * US)
+        for m2 in s.mcs:
+            m2.drain()
+            m2.replies.clear()
+            if not m2.connect():
+                continue
+            m2.up = proto.BASE32
+            m2.up_seq = 0
+            m2.dn_seq = 0
+            m2.dn_frag = 0
+            m2.in_buf = b""
+            m2.lazy = False
+            cc = m2.cc
+            m2.switch_codec(proto.CODECS[cc["up"]])
+            if cc["down"]:
+                m2.option(cc["down"].encode() if isinstance(cc["down"], str) else cc["down"])
+            if cc["lazy"]:
+                m2.option(b"l")
+            big = m2.qtype in (proto.T_NULL, proto.T_PRIVATE, proto.T_TXT, proto.T_SRV, proto.T_MX)
+            # mostly a smaller size than before (a remembered answer of the old session would then be too large)
+            if cc["frag"] > 50:
+                cc["frag"] = rng.choice([max(2, cc["frag"] // 2), max(2, cc["frag"] // 5), 20])
+            else:
+                cc["frag"] = rng.choice([200, 1000] if big else [100, 120])
+            m2.set_frag(cc["frag"])
+        rng.shuffle(old)
+        for (m2, d) in old[:rng.randint(1, 6)]:
+            m2.send_raw_dgram(d)
+            k.run(k.now + rng.choice([2000, 20000]))
+        for m2 in s.mcs:
+            m2.ping(wait_us=30000)
     elif op == "sendfault":
         # one of the server's next few sendto() calls on its DNS socket fails (ENOBUFS, EPERM from a firewall rule, EAGAIN):
         # nothing leaves, and whatever bookkeeping preceded the call must not produce surplus or wrong answers later
